@@ -194,6 +194,7 @@ func C02(c *core.Ctx) {
 	c.Explain = "Decides structural necessary conditions of C02 on every path of the Interest pipeline: (R2.1) each of the five drop conditions of the property (hop limit zero, missing nonce, dead nonce, duplicate nonce from another face, answered from cache) disconnects, with the right polarity, every upstream emission (the Strategy.AfterReceiveInterest call and the NextHopFaceId SendPacket) from the entry of processIncomingInterest; (R2.2) the hop-limit decrement store precedes every emission when a hop limit is present; (R2.3) the face id handed to processOutgoingInterest originates only from the Nexthop field of elements of the slice returned by FibStrategy.FindNextHopsEnc on the Interest name or forwarding hint (backward provenance slice through the strategies), or from NextHopFaceID; (R2.4) the outgoing pipeline's same-face/ad-hoc and hop-limit gates and out-record pairing; (R2.5) suppression-window gate with per-iteration discipline, best-route's ascending-cost comparator and stop-after-first-success, multicast's unconditional send per next hop; (R2.6) the duplicate verdict of InsertInterest is gated by other-face AND same-nonce; (R2.7) expiry moves out-record nonces to the dead nonce list; (R2.8) HopLimitV points into the wire buffer. Not decided: timing of the suppression interval, liveness of 'first Interest is forwarded', FIB contents."
 	c.RuleText = "instances: emission effects × drop gates in processIncomingInterest; every Strategy implementation discovered through the type checker; every processOutgoingInterest/SendInterest call site; Return instructions of InsertInterest. Non-trivial = has at least one branch edge, path or provenance leaf to decide."
 	p := c.P
+	c02DeadNonceKeys(c)
 	// ---- R2.10 (shared with C08 R8.3) a nonce recorded as dead stays dead for its lifetime
 	c.Import(C08, "R2.10", "a dead-nonce record can disappear before its lifetime is over: a looping Interest with that nonce is forwarded", 1, func(k string) bool {
 		return k == "R8.3:dnl-one-expiry-item-per-record"
@@ -1053,4 +1054,79 @@ func ascendingCost(less *ssa.Function) bool {
 		}
 	})
 	return ok
+}
+
+// c02DeadNonceKeys — R2.11: the dead nonce list is keyed by the name of the INTEREST that was
+// sent (that is what a looping copy carries and what the lookup uses): no Insert takes its
+// name from a Data packet. R2.12: where Data satisfies several PIT entries, the nonces
+// recorded as dead in each iteration are those of the entry at hand — the out-records read
+// inside the loop over the matched entries belong to the loop's element, not to a fixed
+// element of the list.
+func c02DeadNonceKeys(c *core.Ctx) {
+	p := c.P
+	nIns := 0
+	for _, fn := range p.FuncsIn(core.ModPath + "/fw/fw") {
+		if strings.HasSuffix(p.File(fn.Pos()), "_test.go") {
+			continue
+		}
+		core.Instrs(fn, func(in ssa.Instruction) {
+			ci, ok := in.(ssa.CallInstruction)
+			if !ok {
+				return
+			}
+			id, ok := core.Callee(ci.Common())
+			if !ok || id.Recv != "DeadNonceList" || id.Name != "Insert" {
+				return
+			}
+			_, args := core.CallArgs(ci.Common())
+			if len(args) != 2 {
+				return
+			}
+			nIns++
+			c.Funcs[core.FuncName(fn)] = true
+			_, path := core.FieldPath(args[0])
+			fromData := false
+			for i, f := range path {
+				if f == "Data" || (f == "NameV" && i > 0 && path[i-1] == "Data") {
+					fromData = true
+				}
+			}
+			if u, isU := core.Strip(args[0]).(*ssa.UnOp); isU && !fromData {
+				if fa, isFA := u.X.(*ssa.FieldAddr); isFA {
+					if tn, _ := core.FieldAddrName(fa); tn == "Data" {
+						fromData = true
+					}
+				}
+			}
+			c.Decide(!fromData, "R2.11", fmt.Sprintf("dead-nonce-keyed-by-interest-name:%s#%d", core.FuncName(fn), nIns), c.Pos(in), "the record is made under a name that does not come from a Data packet", core.FuncName(fn)+" records a nonce as dead under the name of the Data: the lookup uses the name of the incoming Interest, which the Data name only equals for an exact-name Interest — a CanBePrefix (or implicit-digest) Interest answered by a longer-named Data never becomes dead, and a looping copy with its nonce is forwarded again")
+		})
+	}
+	c.Floor("R2.11", "dead-nonce insertions in the forwarding thread", nIns, 3)
+	if pid := c.Fn("R2.12", "fw/fw", "Thread", "processIncomingData"); pid != nil {
+		nLoop, bad := 0, ""
+		core.InstrsDeep(pid, func(in ssa.Instruction) {
+			ci, ok := in.(ssa.CallInstruction)
+			if !ok || !ci.Common().IsInvoke() {
+				return
+			}
+			m := ci.Common().Method.Name()
+			if m != "GetOutRecords" && m != "OutRecords" {
+				return
+			}
+			if !core.InLoop(in.Block()) {
+				return
+			}
+			// receiver: element of a slice at a CONSTANT index, inside a loop over that slice
+			recv := core.Strip(ci.Common().Value)
+			if u, isU := recv.(*ssa.UnOp); isU && u.Op == token.MUL {
+				if ia, isIA := u.X.(*ssa.IndexAddr); isIA {
+					nLoop++
+					if _, isC := core.ConstInt(ia.Index); isC {
+						bad = c.Pos(in)
+					}
+				}
+			}
+		})
+		c.Decide(bad == "", "R2.12", "multi-match-records-each-entrys-nonces", p.Pos(pid.Pos()), fmt.Sprintf("%d out-record reads inside the loop over matched entries, none at a fixed index", nLoop), "processIncomingData reads the out-records of a fixed element of the match list ("+bad+") inside the loop over the matched entries: only the first entry's nonces are recorded as dead, the others' out-records are cleared unrecorded and a looping copy of those Interests is forwarded again")
+	}
 }
